@@ -11,7 +11,9 @@ DESIGN.md §5 C03.
 import json
 
 from vf import report, backends, model as M
-from vf.conform import Conf, step as conf_step
+from vf.conform import Conf, step as conf_step, connection_of
+from vf.explore import explore
+from vf.simloop import Chooser, ReplayDivergence
 
 PID = "C03"
 TREE = {"d": {"f": b"0123456789"}, "g": b"xyz", "home": {"h": b"hh"}}
@@ -153,6 +155,116 @@ def pipelined_work(item):
     return part
 
 
+# -- login handlers that really suspend (custom user manager) -------------------------------------------------------
+SLOW_TABLE = [M.UserSpec(None), M.UserSpec("alice", None, home="/home"), M.UserSpec("bob", "pw", home="/d"),
+              M.UserSpec("carol", "cw", home="/home")]
+SLOW_PRE = [[], ["USER bob"], ["USER alice"], ["USER bob", "PASS pw"], ["USER carol"]]
+SLOW_BURST = ["USER alice", "USER bob", "USER carol", "USER nobody", "PASS pw", "PASS cw", "PASS wrong", "PWD", "DELE /g"]
+
+
+def run_slow_burst(pre, burst, chooser):
+    """a user manager whose get_user / authenticate / notify_logout suspend (executor jobs = environment events):
+    the client pipelines a burst of login commands and probes.  Whatever the completion order of the suspended
+    operations, the session must never end up with more authority than executing the burst in order gives it."""
+    conf = Conf(SLOW_TABLE, TREE, slow_manager=True)
+    rig = conf.new_rig(chooser=chooser)
+    model = conf.new_model()
+    problems = []
+    try:
+        chooser.active = False
+        rig.ev(0, "@connect")
+        w = rig.world
+        for line in pre:
+            conf_step(rig, model, line, conf)
+        s0 = rig.sessions[0]
+        snap_before = rig.snapshot()
+        exp = []
+        for line in burst:
+            exp += model.step(line).replies
+        chooser.active = True
+        s0.send(("\r\n".join(burst) + "\r\n").encode())
+        w.settle(0)
+        chooser.active = False
+        w.settle(0)
+        codes = [c for c, _ in s0.ctl.take_replies()]
+        if len(codes) != len(burst):
+            problems.append({"kind": "pipelined-reply-missing", "sent": burst, "codes": codes})
+        served = sum(c in ("257", "250") for c in codes)
+        served_model = sum(c in ("257", "250") for c in exp)
+        if served > served_model:
+            problems.append({"kind": "served-beyond-sequential-login", "sent": burst, "codes": codes, "in-order": exp})
+        if rig.snapshot() != snap_before and backends.tree_to_snapshot(TREE) == model.tree:
+            problems.append({"kind": "tree-changed-beyond-sequential-login", "sent": burst, "codes": codes})
+        # final authority: black box (PWD names the home directory of the user the session acts as) and white box
+        r = rig.ev(0, "PWD") or []
+        pwd = r[-1] if r else ("", [""])
+        real_logged = pwd[0] == "257"
+        real_home = pwd[1][-1].strip('"') if real_logged else None
+        wb = None
+        try:
+            c = connection_of(rig, 0)
+            if c is not None and c["logged"].done() and c["user"].done():
+                wb = c.user.login
+        except Exception:
+            pass
+        model_user = model.user.login if (model.logged and model.user) else "<nobody>"
+        if real_logged and not model.logged:
+            problems.append({"kind": "authorised-beyond-sequential-login", "sent": burst, "codes": codes,
+                             "acts-as": wb, "home": real_home, "in-order-result": model_user})
+        elif real_logged and model.logged and (real_home != model.cwd or (wb is not None and wb != model.user.login)):
+            problems.append({"kind": "authorised-as-another-user", "sent": burst, "codes": codes,
+                             "acts-as": wb, "home": real_home, "in-order-result": model_user})
+        for p in problems:
+            p["pre"] = list(pre)
+        return {"problems": problems, "events": w.net.n_events, "trace": report.fp(w.net.trace),
+                "outcome": [codes, real_logged, real_home]}
+    finally:
+        rig.close()
+
+
+def slow_work(item):
+    pre, burst, bound = item
+    part = report.Partial()
+    kinds = ["order", "early"]
+    try:
+        for ch, res in explore(lambda c: run_slow_burst(pre, burst, c), bound, kinds=kinds, max_exec=4000):
+            if ch is None:
+                part.caps.append({"slow-burst": [pre, burst], "cap": 4000})
+                break
+            part.evaluations += 1
+            part.traces += 1
+            part.transitions += res["events"]
+            part.states.add(res["trace"])
+            part.nontrivial.add(res["trace"])
+            part.outcomes[report.fp(res["outcome"])] += 1
+            part.counters[f"slow_login_exec_dev{ch.deviations}"] += 1
+            if ch.deviations:
+                part.sample({"pre": pre, "burst": burst, "choices": ch.choices}, limit=1)
+            for p in res["problems"][:1]:
+                part.violation({"kind": p["kind"], "burst-verbs": [b.partition(" ")[0] for b in burst]},
+                               {"problem": p}, replay={"slow": [list(pre), list(burst)], "choices": ch.choices,
+                                                       "kinds": kinds})
+    except ReplayDivergence as exc:
+        part.infra.append(f"replay divergence in slow burst {pre} {burst}: {exc}")
+    return part
+
+
+def slow_items(tier):
+    import itertools
+    bound = 1 if tier == "quick" else 2
+    out = []
+    for pre in SLOW_PRE:
+        for n in (2, 3):
+            for burst in itertools.product(SLOW_BURST, repeat=n):
+                verbs = [b.partition(" ")[0] for b in burst]
+                if "USER" not in verbs and "PASS" not in verbs:
+                    continue
+                if n == 3 and tier == "quick" and verbs.count("USER") + verbs.count("PASS") < 2:
+                    continue
+                out.append((pre, list(burst), bound))
+    return out
+
+
 def expand(item):
     table, hist, probe = item
     part = report.Partial()
@@ -206,13 +318,21 @@ def bfs(table, depth):
 def run(tier, seed, t0):
     depth = 4 if tier == "quick" else 6
     parts = [bfs(t, depth) for t in TABLES]
+    items = slow_items(tier)
+    parts += report.pmap(slow_work, items)
     part = report.merge_all(parts)
-    bounds = {"tables": list(TABLES), "login_alphabet": LOGIN, "probes": len(PROBES), "spellings": 3, "depth": depth}
+    part.counters["slow_login_bursts"] = len(items)
+    bounds = {"tables": list(TABLES), "login_alphabet": LOGIN, "probes": len(PROBES), "spellings": 3, "depth": depth,
+              "suspending_user_manager": {"pre_states": SLOW_PRE, "burst_alphabet": SLOW_BURST, "burst_length": "2..3",
+                                          "deviation_bound": items[0][2], "deviation_kinds": ["order", "early"]}}
     return report.finish(
         PID, tier, seed, "model_checking", part, t0,
         rule="BFS over login histories de-duplicated on (model login state, cwd, pending rename, passive, white-box digest); "
              "from every distinct state every verb is probed in upper/lower/mixed spelling; every step is checked against "
-             "the reference model and the not-logged-in oracle (reply class, spy backend call count, listeners)",
+             "the reference model and the not-logged-in oracle (reply class, spy backend call count, listeners). "
+             "Suspending user manager: every pipelined burst of login commands and probes, from every pre-state, under "
+             "all completion orders of the suspended manager operations with <= d deviations; oracle = never more "
+             "authority (served probes, final login) than executing the burst in order",
         bounds=bounds,
         assumptions=["environment model SimLoop/SimNet", "spy backend wraps every abstract PathIO operation"])
 
@@ -220,6 +340,10 @@ def run(tier, seed, t0):
 def replay(path):
     data = json.loads(open(path).read())
     rp = data["replay"]
+    if "slow" in rp:
+        res = run_slow_burst(rp["slow"][0], rp["slow"][1], Chooser(rp["choices"], rp["kinds"]))
+        print(json.dumps(res["problems"], indent=1, default=repr))
+        return 1 if res["problems"] else 0
     if "pipelined" in rp:
         problems, nev = run_pipelined(*rp["pipelined"])
         print(json.dumps(problems, indent=1, default=repr))
